@@ -688,12 +688,21 @@ impl Engine for Da {
         }
         let mut start_below_max = [0u32; 5];
         for d in start_below_max.iter_mut() {
-            *d = match g.below(8) {
+            *d = match g.below(11) {
                 0 => 0,
                 1 => 1,
                 2 => 2,
                 3 | 4 => g.range(3, 12) as u32,
                 5 | 6 => g.range(12, 60) as u32,
+                // a few keys below a carry into the top byte (any top byte) or into the middle byte
+                7 | 8 => {
+                    let first = (((g.below(255) as u32) << 16) | 0xffff) - g.below(12) as u32;
+                    (super::registry::WRITABLE_KEYS - 1).saturating_sub(first)
+                }
+                9 => {
+                    let first = (((g.below(0xffff) as u32) << 8) | 0xff) - g.below(12) as u32;
+                    (super::registry::WRITABLE_KEYS - 1).saturating_sub(first)
+                }
                 _ => 1_000_000,
             };
         }
